@@ -20,7 +20,7 @@ RULE = ("(a) the full grid statistic(14) x shapes with 1..4 axes and lengths 0..
         "duplicate / empty / unknown sample lists, sample files with odd lines, projection bounds; mutated VCF, BGZF "
         "and BCF bytes (bit flips, truncations, splices - fuzz-style support only: noodles is not modelled). Every "
         "run must exit 0 or non-zero with a diagnostic on stderr; exit 101 / 'panicked at' / a signal is a failure. "
-        "non-trivial = a degenerate shape, an out-of-bounds option or a mutated input; text headers with non-ASCII numeric characters of 2-4 bytes before, inside and after the shape; npy files without any axis ('shape': ()) and with all axes of length one through every statistic")
+        "non-trivial = a degenerate shape, an out-of-bounds option or a mutated input; text headers with non-ASCII numeric characters of 2-4 bytes before, inside and after the shape; npy files without any axis ('shape': ()) and with all axes of length one through every statistic; BCF records with more / fewer genotypes than the header has samples")
 
 
 def fmt(l):
@@ -173,6 +173,11 @@ def check(rep, tier, seed):
             else:
                 src[k:k] = bytes(rng.randrange(256) for _ in range(rng.randrange(1, 9)))
         inputs.append(bytes(src))
+    # spectra with as many entries as the 3x3 the kinship statistics want, in another shape: a diagnosed shape error
+    for shp9 in ([1, 9], [9, 1], [9], [3, 3, 1], [1, 3, 3], [1, 1, 9], [3, 1, 3]):
+        t9 = text_spectrum(shp9, [str(v) for v in range(9)])
+        for st in ("king", "r0", "r1", "king,r0,r1", "fst", "f2", "pi-xy"):
+            jobs.append((["stat", "-s", st], t9, "nine-entries"))
     # npy files of degenerate shape - no axis at all ('shape': (), which numpy writes for a scalar) with zero, one or two
     # values, one entry, all axes of length one - through EVERY statistic (the diagnostic of a shape error prints the shape)
     for shp_txt, nvals in (("()", 1), ("()", 0), ("()", 2), ("(,)", 1), ("(1,)", 1), ("(1, 1)", 1), ("(1, 1, 1)", 1), ("(2,)", 2), ("(1, 2)", 2), ("(2, 1, 1, 1)", 2), ("(3, 3)", 9)):
@@ -241,6 +246,27 @@ def check(rep, tier, seed):
         recs_ = [["0/1"] + ["0/0"] * (nsmp - 1), ["1/1"] * (nsmp - 1) + ["0/1"], ["0/1", "./."] + ["0/0"] * (nsmp - 2), ["1/1"] * nsmp]
         for pr in (["-p", "5"], ["--project-shape", str(2 * nsmp)], ["--project-shape", "172"]):
             jobs.append((["create"] + pr, render_vcf(cols_, recs_), "seam"))
+    # records that carry MORE (or fewer) genotypes than the header declares samples - internally consistent BCF records taken
+    # from a call set of 3 (or 1) samples behind the header of a call set of 2 - and a VCF line with a surplus column
+    from callsets import bcf_encode_hts as _benc
+    import struct as _stb
+    def bcf_parts(v_):
+        b_ = _benc(v_)
+        lt = _stb.unpack("<I", b_[5:9])[0]
+        return b_[:5], b_[9:9 + lt], b_[9 + lt:]
+    v3 = render_vcf(["a", "b", "c"], [["0/1", "1/1", "0/0"], ["0/0", "0/1", "1/1"], ["1/1", "0/0", "0/1"]])
+    v2 = render_vcf(["a", "b"], [["0/1", "1/1"], ["0/0", "0/1"]])
+    v1 = render_vcf(["a"], [["0/1"], ["1/1"]])
+    mg, h2, r2 = bcf_parts(v2)
+    for recs_from, what in ((v3, "3 genotypes per record"), (v1, "1 genotype per record")):
+        _, _, rr_ = bcf_parts(recs_from)
+        for body in (rr_, r2[: len(r2) // 2] + rr_, rr_ + r2):
+            blob = mg + _stb.pack("<I", len(h2)) + h2 + body
+            for data in (blob, bgzf_compress(blob)):
+                for argv in (["create"], ["create", "-s", "a"], ["create", "-s", "a=x,b=y"], ["create", "-p", "1"], ["create", "--strict"], ["create", "-s", "b", "-p", "1"]):
+                    jobs.append((argv, data, "bcf-sample-count-mismatch"))
+    surplus = v2.replace(b"\t1/1\n", b"\t1/1\t0/1\n", 1)
+    jobs.append((["create"], surplus, "bcf-sample-count-mismatch")); jobs.append((["create", "-s", "b"], surplus, "bcf-sample-count-mismatch"))
     # mutated call-set containers (fuzz-style; noodles is not modelled)
     cont = {"vcf": vcf, "vcf.gz": bgzf_compress(vcf, sizes=[60, 200])}
     raw = vcf_to_bcf(vcf, "c17", "raw")
